@@ -938,6 +938,9 @@ func (fa *FnAnalysis) flowBlock(b *ssa.BasicBlock, ins []*State, record bool) {
 					snap = append(snap, s.clone())
 				}
 			}
+			for _, s := range snap {
+				s.frozen = true
+			}
 			fa.before[in] = snap
 		}
 		switch x := in.(type) {
